@@ -17,11 +17,13 @@ CONSTANTS
   UseScan = FALSE
   UseAccounts2 = FALSE
   UseSelf = TRUE
+  FundAcct2 = FALSE
   UseDiverge = FALSE
   UseAdv = FALSE
 SPECIFICATION Spec
 INVARIANT TypeOK
 INVARIANT Inv_Exclusive
+INVARIANT Inv_Held
 PROPERTY Prop_Replay
 PROPERTY Prop_SelectAvoidsReserved
 PROPERTY Prop_Cancel
